@@ -7,7 +7,7 @@
      b64enc / b64dec               b64dec (b64enc x) = Some x
    The random salt is an argument ([Some salt]; [None] = the entropy source failed). *)
 From Coq Require Import List ZArith Bool Arith.
-From V Require Import Lib.Enc Gen.Cryptz Model.Aes Model.Crypt Proofs.AesPkcs7 Proofs.CryptKdf Proofs.CryptEnv Proofs.CryptStream.
+From V Require Import Lib.Enc Gen.Cryptz Model.Aes Model.Crypt Proofs.AesPkcs7 Proofs.CryptKdf Proofs.CryptEnv Proofs.CryptStream Proofs.CryptRefine.
 Import ListNotations.
 
 (* ---- fillCred is OpenSSL's EVP_BytesToKey(MD5, count 1) producing 48 bytes *)
@@ -165,3 +165,26 @@ Theorem c09_stream_roundtrip_any_chunking : forall (E : bytes -> bytes -> bytes)
    exists w2, decrypt_stream E md5 B r2 (new_writer wb2) s = Ok (0%Z, w2) /\ w_out w2 = r_data r1).
 Proof. exact stream_roundtrip_any_chunking. Qed.
 Print Assumptions c09_stream_roundtrip_any_chunking.
+
+(* ---- refinement: for EVERY case the model's output passes the judge [spec_ok] that `sub 2` of Run/C09 applies to the
+        implementation's output (independent derivation: EVP definition, PKCS#7 definition, library whole-message
+        CBC / CTR / GCM, base64), provided the library's CBC and CTR are the SP 800-38A constructions over the block
+        function.  [op_wf9]: salts have 8 bytes, the read buffer is positive, and a case flagged "corrupted, must be
+        rejected" is one the judge's own derivation rejects. *)
+Theorem c09_model_meets_spec : forall (E D : bytes -> bytes -> bytes)
+  (seal : bytes -> bytes -> bytes -> bytes -> bytes) (open : bytes -> bytes -> bytes -> bytes -> option bytes)
+  (md5 b64enc : bytes -> bytes) (b64dec : bytes -> option bytes) (std_enc std_dec std_ctr : bytes -> bytes -> bytes -> bytes),
+  (forall m, length (md5 m) = 16) ->
+  (forall k b, good_key k = true -> length b = 16 -> D k (E k b) = b) ->
+  (forall k b, good_key k = true -> length b = 16 -> length (E k b) = 16) ->
+  (forall k b, good_key k = true -> length b = 16 -> length (D k b) = 16) ->
+  (forall k n p a, good_key k = true -> n <> [] -> open k n (seal k n p a) a = Some p) ->
+  (forall k n p a, length (seal k n p a) = length p + 16) ->
+  (forall k n c a p, open k n c a = Some p -> length c = length p + 16) ->
+  (forall k iv d, good_key k = true -> length iv = 16 -> length d mod 16 = 0 -> std_enc k iv d = cbc_enc_bytes E k iv d) ->
+  (forall k iv d, good_key k = true -> length iv = 16 -> length d mod 16 = 0 -> std_dec k iv d = cbc_dec_bytes D k iv d) ->
+  (forall k iv d n, good_key k = true -> length iv = 16 -> length d <= 16 * n -> std_ctr k iv d = xor d (keystream E k iv n)) ->
+  forall o, op_wf9 open md5 o ->
+  spec_ok std_enc std_dec std_ctr seal open md5 b64enc b64dec o (run_op E D seal open md5 b64enc b64dec o) = true.
+Proof. exact model_meets_spec9. Qed.
+Print Assumptions c09_model_meets_spec.
